@@ -647,6 +647,8 @@ int notify_fetchers(const struct element *e, const char *event_name)
 	return ret;
 }
 
+static void remove_fetch_from_states(const struct fetch *f);
+
 cJSON *add_fetch_to_states(const struct peer *request_peer, const cJSON *request, struct fetch *f)
 {
 	struct list_head *item;
@@ -656,7 +658,14 @@ cJSON *add_fetch_to_states(const struct peer *request_peer, const cJSON *request
 		const struct peer *p = list_entry(item, struct peer, next_peer);
 		int ret = add_fetch_to_states_in_peer(p, f);
 		if (unlikely(ret != 0)) {
-			return create_error_response_from_request(p, request, INTERNAL_ERROR, "reason", "could not add fetch to state");
+			/*
+			 * The fetch is refused: it must not stay registered at the
+			 * peer nor attached to the states reached so far.
+			 */
+			remove_fetch_from_states(f);
+			list_del(&f->next_fetch);
+			free_fetch(f);
+			return create_error_response_from_request(request_peer, request, INTERNAL_ERROR, "reason", "could not add fetch to state");
 		}
 	}
 
